@@ -343,6 +343,12 @@ def dtype_of(t):
         if t[1] in ("numpy.zeros", "numpy.ones", "numpy.empty") and d is None:
             return "float"
         return "as-given"
+    if t[0] == "ext" and t[1] in ("numpy.eye", "numpy.identity") and dict(t[3]).get("dtype") in (None, ("extref", "float"), ("extref", "numpy.float64")):
+        return "float"
+    if t[0] == "attr" and t[2] == "T":
+        return dtype_of(t[1])
+    if t[0] in ("mut", "store"):
+        return dtype_of(t[1])          # in-place updates keep the dtype of the array they write
     if t[0] == "binop" and t[1] in ("*", "+", "-", "/"):
         if t[1] == "/" or any(is_const(x) and isinstance(x[1], float) for x in (t[2], t[3])):
             return "float"
@@ -496,6 +502,18 @@ def run(prog, rep, tier):
             rep.ok("DTYPE.lossless", w, "parameters are written into a float array (%s)" % fmt(b))
         rep.check("COPY.working", b != ("self", name), w, "works on a copy of self.%s" % name, "writes self.%s itself" % name)
     rep.check("COPY.working", base_of(Wt) != ("self", "W"), fwhere(f, construct="working copy of self.W"), "works on a copy of self.W", "writes self.W itself")
+    # the matrix that is inverted is formed in floating point: arithmetic on W *in the dtype the user gave it* wraps around for
+    # unsigned weights (-W), overflows for narrow integers and is a logical product for booleans - np.eye(p) - W.T promotes first
+    invs = [c for c in S.select("call", qname=f.qname) if c.callkind == "ext" and c.target in ("numpy.linalg.inv", "numpy.linalg.solve", "numpy.linalg.pinv")] + \
+        [c for c in S.facts if c.kind == "call" and getattr(c, "callkind", "") == "ext" and c.target in ("numpy.linalg.inv", "numpy.linalg.solve", "numpy.linalg.pinv") and c.qname == U + "sampling_matrix"]
+    for c in invs[:1]:
+        a0 = c.args[0] if c.args else None
+        arith = a0 is not None and any(isinstance(x, tuple) and x and x[0] in ("binop", "unop", "neg", "mut") for x in walk(a0))
+        if a0 is not None and arith and dtype_of(a0) != "float":
+            rep.bad("DTYPE.inverse-input", fwhere(c.func if c.func is not None else f, c.node), "the matrix handed to %s is computed in the dtype of the model's W (%s): unsigned weights wrap around "
+                    "under negation, narrow integers overflow, booleans multiply logically" % (c.target.split(".")[-1], fmt(a0)[:70]))
+        elif a0 is not None:
+            rep.ok("DTYPE.inverse-input", fwhere(c.func if c.func is not None else f, c.node), "I - W^T is formed in floating point before it is inverted")
     # ---- NONE: every parse is guarded by the truthiness of its own argument
     parses = [c for c in S.select("call", qname=f.qname) if c.target == LG + "_parse_interventions"]
     kinds_seen = set()
